@@ -837,3 +837,318 @@ async fn f16e_req_keeps_selecting_dead_peer() {
     }
     assert!(bad.is_empty(), "\n  {}", bad.join("\n  "));
 }
+
+// ===========================================================================
+// Round 2 (appended): F13b and F16d
+// ===========================================================================
+
+/// Reads the remainder of a frame whose flags byte has already been consumed.
+async fn read_frame_after_flags<S: AsyncRead + Unpin>(
+    s: &mut S,
+    flags: u8,
+) -> std::io::Result<(u8, Vec<u8>)> {
+    let len = if flags & 0x02 != 0 {
+        s.read_u64().await? as usize
+    } else {
+        s.read_u8().await? as usize
+    };
+    let mut body = vec![0u8; len];
+    s.read_exact(&mut body).await?;
+    Ok((flags, body))
+}
+
+/// Reads frames until nothing has arrived for `idle` (quiescence) or the
+/// stream ends.
+async fn drain_until_idle<S: AsyncRead + Unpin>(s: &mut S, idle: Duration) -> Vec<(u8, Vec<u8>)> {
+    let mut out = vec![];
+    loop {
+        // Only the wait for the first byte of a frame is subject to the idle
+        // timeout, so a frame is never abandoned half-read.
+        let flags = match timeout(idle, s.read_u8()).await {
+            Ok(Ok(f)) => f,
+            _ => break,
+        };
+        match timeout(Duration::from_secs(5), read_frame_after_flags(s, flags)).await {
+            Ok(Ok(f)) => out.push(f),
+            _ => break,
+        }
+    }
+    out
+}
+
+/// Topics the scripted PUB peer considers subscribed after folding `frames`.
+fn subscribed_topics(frames: &[(u8, Vec<u8>)]) -> std::collections::HashSet<Vec<u8>> {
+    let mut set = std::collections::HashSet::new();
+    for (_flags, body) in frames {
+        match body.first() {
+            Some(1) => {
+                set.insert(body[1..].to_vec());
+            }
+            Some(0) => {
+                set.remove(&body[1..]);
+            }
+            _ => {}
+        }
+    }
+    set
+}
+
+fn short(t: &[u8]) -> String {
+    if t.len() > 16 {
+        format!("{}..({} bytes)", String::from_utf8_lossy(&t[..8]), t.len())
+    } else {
+        String::from_utf8_lossy(t).to_string()
+    }
+}
+
+/// Common part of the F13b scenario once the scripted peer has completed the
+/// handshake and is NOT reading: waits until the re-announcement has started
+/// (so the snapshot of the subscription set has been taken), lets the
+/// application subscribe to "late", then lets the peer read everything until
+/// quiescence. Returns the socket and the frames seen by the peer.
+async fn f13b_late_subscribe<S>(mut sub: SubSocket, peer: &mut S) -> (SubSocket, Vec<(u8, Vec<u8>)>)
+where
+    S: AsyncRead + Unpin,
+{
+    // First byte of the re-announcement: `peer_connected` is now past its
+    // snapshot and parked in the sends (the topics do not fit in the pipe).
+    let first_flags = timeout(Duration::from_secs(3), peer.read_u8())
+        .await
+        .expect("re-announcement never started")
+        .unwrap();
+
+    // The application subscribes while the new peer is still being set up.
+    // It runs as a task so that the test cannot deadlock against a repair that
+    // makes subscribe() wait for the new peer: the peer starts reading after
+    // 200 ms whether or not subscribe() has returned.
+    let mut sub_task = tokio::spawn(async move {
+        let r = sub.subscribe("late").await;
+        (sub, r)
+    });
+    let early = timeout(Duration::from_millis(200), &mut sub_task).await;
+    eprintln!(
+        "F13b: subscribe(\"late\") {} before the peer started reading",
+        if early.is_ok() { "returned" } else { "did not return" }
+    );
+
+    let mut frames = vec![
+        timeout(Duration::from_secs(5), read_frame_after_flags(peer, first_flags))
+            .await
+            .expect("first frame stalled")
+            .unwrap(),
+    ];
+    frames.extend(drain_until_idle(peer, Duration::from_millis(400)).await);
+
+    let (sub, r) = match early {
+        Ok(j) => j.unwrap(),
+        Err(_) => timeout(Duration::from_secs(3), sub_task)
+            .await
+            .expect("subscribe(\"late\") hung")
+            .unwrap(),
+    };
+    eprintln!("F13b: subscribe(\"late\") -> {r:?}");
+    // anything sent after subscribe() finally returned
+    frames.extend(drain_until_idle(peer, Duration::from_millis(300)).await);
+    (sub, frames)
+}
+
+fn f13b_check(frames: &[(u8, Vec<u8>)], expected: &[Vec<u8>]) {
+    let told = subscribed_topics(frames);
+    let mut told_s: Vec<String> = told.iter().map(|t| short(t)).collect();
+    told_s.sort();
+    eprintln!("F13b: at quiescence the peer has been told: {told_s:?}");
+    let missing: Vec<String> = expected
+        .iter()
+        .filter(|t| !told.contains(*t))
+        .map(|t| short(t))
+        .collect();
+    assert!(
+        missing.is_empty(),
+        "at quiescence the new peer was never told about topic(s) {missing:?} that are in the socket's subscription set (peer knows {told_s:?})"
+    );
+}
+
+/// Deterministic, in-memory: the accept path (`util::peer_connected`, which is
+/// what the background accept task of a bound socket runs) over a 256 byte
+/// duplex pipe.
+#[tokio::test(flavor = "multi_thread", worker_threads = 2)]
+async fn f13b_sub_late_subscribe_lost_duplex() {
+    let mut sub = SubSocket::new();
+    let big = "b".repeat(64 * 1024);
+    sub.subscribe("a").await.unwrap();
+    sub.subscribe(&big).await.unwrap();
+
+    let (lib_end, mut peer_end) = tokio::io::duplex(256);
+    let backend = sub.backend();
+    let accept_task = tokio::spawn(async move {
+        crate::util::peer_connected(make_framed(lib_end), backend)
+            .await
+            .map(|_| ())
+    });
+    scripted_handshake(&mut peer_end, "PUB").await;
+
+    let (_sub, frames) = f13b_late_subscribe(sub, &mut peer_end).await;
+    let r = timeout(Duration::from_secs(3), accept_task)
+        .await
+        .expect("peer_connected hung")
+        .expect("peer_connected panicked");
+    eprintln!("F13b(duplex): peer_connected -> {r:?}");
+    f13b_check(
+        &frames,
+        &[b"a".to_vec(), big.into_bytes(), b"late".to_vec()],
+    );
+}
+
+/// Same through the public API: SUB bound on loopback TCP, the handshake of the
+/// accepted connection runs in the socket's background accept task. 16 topics
+/// of 1 MiB cannot disappear into the socket buffers, so the re-announcement
+/// is parked while the peer does not read.
+#[tokio::test(flavor = "multi_thread", worker_threads = 2)]
+async fn f13b_sub_late_subscribe_lost_bound_tcp() {
+    let mut sub = SubSocket::new();
+    let mut expected = vec![];
+    for i in 0..16u8 {
+        let mut t = String::with_capacity(1 << 20);
+        t.push((b'A' + i) as char);
+        while t.len() < (1 << 20) {
+            t.push('x');
+        }
+        sub.subscribe(&t).await.unwrap();
+        expected.push(t.into_bytes());
+    }
+    expected.push(b"late".to_vec());
+    let port = match sub.bind("tcp://127.0.0.1:0").await.unwrap() {
+        crate::Endpoint::Tcp(_, port) => port,
+        other => panic!("unexpected endpoint {other}"),
+    };
+    let mut peer = TcpStream::connect(("127.0.0.1", port)).await.unwrap();
+    scripted_handshake(&mut peer, "PUB").await;
+
+    let (_sub, frames) = f13b_late_subscribe(sub, &mut peer).await;
+    f13b_check(&frames, &expected);
+}
+
+// ---------------------------------------------------------------------------
+// F16d: orderly close by the peer is never reported to the backend
+// ---------------------------------------------------------------------------
+
+/// Public API, black box: a PULL socket bound on loopback TCP. 20 scripted
+/// PUSH peers connect, send one message and half-close (FIN). Once the socket
+/// has consumed the messages and observed the end of each stream it should
+/// release the connection, which the peer observes as EOF on its read side.
+#[tokio::test(flavor = "multi_thread", worker_threads = 2)]
+async fn f16d_pull_tcp_clean_close_never_released() {
+    const N: usize = 20;
+    let mut pull = crate::PullSocket::new();
+    let port = match pull.bind("tcp://127.0.0.1:0").await.unwrap() {
+        crate::Endpoint::Tcp(_, port) => port,
+        other => panic!("unexpected endpoint {other}"),
+    };
+    let mut peers = vec![];
+    for i in 0..N {
+        let mut s = TcpStream::connect(("127.0.0.1", port)).await.unwrap();
+        scripted_handshake(&mut s, "PUSH").await;
+        s.write_all(&[0x00, 0x01, i as u8]).await.unwrap();
+        s.flush().await.unwrap();
+        s.shutdown().await.unwrap(); // orderly close of our sending direction
+        peers.push(s);
+    }
+    let mut got = vec![];
+    for _ in 0..N {
+        let m = timeout(Duration::from_secs(2), pull.recv())
+            .await
+            .expect("message missing")
+            .unwrap();
+        got.push(m.get(0).unwrap()[0]);
+    }
+    got.sort();
+    assert_eq!(got, (0..N as u8).collect::<Vec<_>>());
+    // keep polling the socket: it observes the end of all 20 streams
+    for _ in 0..3 {
+        let r = timeout(Duration::from_millis(300), pull.recv()).await;
+        assert!(r.is_err(), "unexpected recv result {}", describe(&r));
+    }
+
+    let deadline = tokio::time::Instant::now() + Duration::from_secs(1);
+    let mut still_open = 0;
+    for s in peers.iter_mut() {
+        let mut b = [0u8; 1];
+        match tokio::time::timeout_at(deadline, s.read(&mut b)).await {
+            Ok(Ok(0)) | Ok(Err(_)) => {} // connection released by the socket
+            Ok(Ok(_)) => panic!("PULL socket sent data?!"),
+            Err(_) => still_open += 1,
+        }
+    }
+    drop(pull);
+    assert_eq!(
+        still_open, 0,
+        "{still_open} of {N} connections whose peer closed cleanly are still held open by the PULL socket (peer never sees EOF)"
+    );
+}
+
+/// White box: a real `PullSocket` fed through duplex pipes (the accept path
+/// `util::peer_connected` with the socket's own backend), so that both the
+/// peer table and the fate of the write halves can be inspected.
+#[allow(unsafe_code)] // the crate builds with -Dunsafe_code; one cast below, test only
+#[tokio::test(flavor = "multi_thread", worker_threads = 2)]
+async fn f16d_pull_peer_table_after_clean_close() {
+    use crate::backend::GenericSocketBackend;
+    use std::sync::Arc;
+
+    const N: usize = 20;
+    let mut pull = crate::PullSocket::new();
+    // `PullSocket.backend` is a private field; `backend()` hands out the same
+    // Arc as `Arc<dyn MultiPeerBackend>`. Its concrete type is
+    // `GenericSocketBackend` (see `PullSocket::with_options`), so the data
+    // pointer can be reinterpreted to reach the pub(crate) `peers` table.
+    // (If a repair ever changes the backend type of PullSocket this cast must
+    // change with it.)
+    let backend: Arc<GenericSocketBackend> = {
+        let dynamic: Arc<dyn crate::MultiPeerBackend> = pull.backend();
+        assert_eq!(dynamic.socket_type(), SocketType::PULL);
+        unsafe { Arc::from_raw(Arc::into_raw(dynamic) as *const GenericSocketBackend) }
+    };
+
+    let mut peers = vec![];
+    for i in 0..N {
+        let (lib_end, mut peer_end) = tokio::io::duplex(4096);
+        let b = pull.backend();
+        let accept =
+            tokio::spawn(
+                async move { crate::util::peer_connected(make_framed(lib_end), b).await },
+            );
+        scripted_handshake(&mut peer_end, "PUSH").await;
+        accept.await.unwrap().unwrap();
+        peer_end.write_all(&[0x00, 0x01, i as u8]).await.unwrap();
+        peer_end.shutdown().await.unwrap(); // orderly end of stream towards the socket
+        peers.push(peer_end);
+    }
+    assert_eq!(backend.peers.len(), N);
+
+    for _ in 0..N {
+        timeout(Duration::from_secs(2), pull.recv())
+            .await
+            .expect("message missing")
+            .unwrap();
+    }
+    // keep polling the socket: it observes the end of all streams
+    for _ in 0..3 {
+        let r = timeout(Duration::from_millis(300), pull.recv()).await;
+        assert!(r.is_err(), "unexpected recv result {}", describe(&r));
+    }
+
+    let mut no_eof = 0;
+    for p in peers.iter_mut() {
+        let mut b = [0u8; 1];
+        match timeout(Duration::from_millis(20), p.read(&mut b)).await {
+            Ok(Ok(0)) | Ok(Err(_)) => {}
+            _ => no_eof += 1,
+        }
+    }
+    let held = backend.peers.len();
+    eprintln!("F16d: peer table holds {held} entries, {no_eof} peers saw no EOF");
+    assert!(
+        held == 0 && no_eof == 0,
+        "after all {N} peers closed cleanly and the socket observed the end of every stream: peer table still holds {held} entries and {no_eof} peers never saw the socket drop its write half"
+    );
+}
